@@ -691,6 +691,24 @@ pub fn visit_cnfs(file: &mut File, f: &mut dyn FnMut(&mut Cnf)) {
 }
 
 
+/// Append `suffix` to every custom message of the file (C09: messages that span several lines).
+pub fn suffix_messages(file: &mut File, suffix: &str) {
+    fn fix_cnf(c: &mut Cnf, suffix: &str) {
+        for line in c.iter_mut() {
+            for it in line.iter_mut() {
+                match it {
+                    Item::Clause(Clause { msg: Some(m), .. })
+                    | Item::Ref { msg: Some(m), .. }
+                    | Item::PCall { msg: Some(m), .. } => m.push_str(suffix),
+                    _ => {}
+                }
+            }
+        }
+    }
+    let sfx = suffix.to_string();
+    visit_cnfs(file, &mut |c| fix_cnf(c, &sfx));
+}
+
 /// Give every rule, parameterised rule and custom message of the file a prefix (used to make names
 /// globally distinct across several rules files).
 pub fn prefix_names(file: &mut File, prefix: &str) {
